@@ -202,11 +202,18 @@ def run(ctx):
           why_ok = 'allow-listed: ' + why
       rule = 'ORD/traversal' if s.kind == 'traversal' else 'ORD/positional'
       if reasons:
+        unk = ordr.undecided_reason(s, reasons)
+        if unk is None and s.kind == 'positional' and isinstance(s.node, ast.Subscript):
+          walked = _walking_index(fi, s.node)
+          if walked:
+            # X[i] with i stepped by an enclosing loop is a traversal by index, not a read of one privileged position: whether its body
+            # is element-wise is not something the positional rule can say
+            unk = 'cannot classify: %s is read at an index (%s) that an enclosing loop steps through: a traversal by index' % (norm_text(s.node), walked)
         ctx.ob(rule, fi, s.stmt if s.kind == 'traversal' else s.node, False,
-               '; '.join(reasons) + ' [provenance: storage order of %s]' % s.prov.detail, construct=s.what, unknown=ordr.undecided_reason(s, reasons),
+               '; '.join(reasons) + ' [provenance: storage order of %s]' % s.prov.detail, construct=s.what, unknown=unk,
                # a positional read of storage-ordered data is a finding of the order analysis itself; only the reads that the
                # allow-list may discharge by looking at their context (<seq>.time_signatures[0], <seq>.tempos[0]) depend on arrangement
-               definite=(s.kind == 'positional' and isinstance(s.node, ast.Subscript) and
+               definite=(unk is None and s.kind == 'positional' and isinstance(s.node, ast.Subscript) and
                          not norm_text(s.node.value).endswith(('.time_signatures', '.tempos'))))
       else:
         ctx.ob(rule, fi, s.stmt if s.kind == 'traversal' else s.node, True,
@@ -297,6 +304,19 @@ def _elementwise_index_delete(fi, site):
   if not cands:
     return False, ''
   return True, 'the deleted positions are those of the elements that satisfy a test on the element alone (indices from enumerate, removed from the highest down): an element-wise filter'
+
+
+def _walking_index(fi, sub):
+  """The index name when `sub` is X[i] (or X[i +/- c]) and i is re-assigned inside a loop that encloses the read."""
+  names = [n.id for n in ast.walk(sub.slice) if isinstance(n, ast.Name)]
+  if isinstance(sub.slice, ast.Slice) or not names:
+    return None
+  for lp in U.enclosing_loops(fi.node, sub):
+    stored = set(n.id for n in ast.walk(lp) if isinstance(n, ast.Name) and isinstance(n.ctx, ast.Store))
+    hit = [n for n in names if n in stored]
+    if hit:
+      return hit[0]
+  return None
 
 
 def allow(ctx, fi, o, site):
